@@ -525,8 +525,6 @@ func (lcp *LCPStateMachine) receiveConfigureAck(pkt *LCPPacket) error {
 		return nil
 	}
 
-	lcp.stopTimer()
-
 	switch lcp.state {
 	case LCPStateClosed, LCPStateStopped:
 		lcp.sendTerminateAck(pkt.Identifier)
@@ -537,6 +535,7 @@ func (lcp *LCPStateMachine) receiveConfigureAck(pkt *LCPPacket) error {
 		lcp.sendConfigureRequest()
 		lcp.setState(LCPStateReqSent)
 	case LCPStateAckSent:
+		lcp.stopTimer()
 		lcp.initializeRestartCount()
 		// This-Layer-Up
 		lcp.setState(LCPStateOpened)
@@ -554,8 +553,6 @@ func (lcp *LCPStateMachine) receiveConfigureNak(pkt *LCPPacket) error {
 	if pkt.Identifier != lcp.lastIdentifier {
 		return nil
 	}
-
-	lcp.stopTimer()
 
 	// Process NAK options and update our config
 	opts, err := ParseLCPOptions(pkt.Data)
@@ -623,8 +620,6 @@ func (lcp *LCPStateMachine) receiveConfigureReject(pkt *LCPPacket) error {
 		return nil
 	}
 
-	lcp.stopTimer()
-
 	// Process rejected options and remove them from our config
 	opts, err := ParseLCPOptions(pkt.Data)
 	if err != nil {
@@ -663,12 +658,11 @@ func (lcp *LCPStateMachine) receiveConfigureReject(pkt *LCPPacket) error {
 
 // receiveTerminateRequest handles incoming Terminate-Request
 func (lcp *LCPStateMachine) receiveTerminateRequest(pkt *LCPPacket) error {
-	lcp.stopTimer()
-
 	switch lcp.state {
 	case LCPStateClosed, LCPStateStopped, LCPStateClosing, LCPStateStopping:
 		lcp.sendTerminateAck(pkt.Identifier)
 	case LCPStateReqSent, LCPStateAckRcvd, LCPStateAckSent:
+		lcp.stopTimer()
 		lcp.sendTerminateAck(pkt.Identifier)
 		lcp.setState(LCPStateStopped)
 	case LCPStateOpened:
@@ -676,6 +670,8 @@ func (lcp *LCPStateMachine) receiveTerminateRequest(pkt *LCPPacket) error {
 		lcp.zeroRestartCount()
 		lcp.sendTerminateAck(pkt.Identifier)
 		lcp.setState(LCPStateStopping)
+		// Restart counter is zero: the next timeout finishes the layer (RFC 1661 zrc)
+		lcp.startTimer()
 	}
 
 	return nil
@@ -683,14 +679,14 @@ func (lcp *LCPStateMachine) receiveTerminateRequest(pkt *LCPPacket) error {
 
 // receiveTerminateAck handles incoming Terminate-Ack
 func (lcp *LCPStateMachine) receiveTerminateAck(pkt *LCPPacket) error {
-	lcp.stopTimer()
-
 	switch lcp.state {
 	case LCPStateClosing:
 		// This-Layer-Finished
+		lcp.stopTimer()
 		lcp.setState(LCPStateClosed)
 	case LCPStateStopping:
 		// This-Layer-Finished
+		lcp.stopTimer()
 		lcp.setState(LCPStateStopped)
 	case LCPStateAckRcvd:
 		lcp.setState(LCPStateReqSent)
@@ -940,8 +936,12 @@ func (lcp *LCPStateMachine) timeout() {
 		switch lcp.state {
 		case LCPStateClosing, LCPStateStopping:
 			lcp.sendTerminateRequest("Timeout")
-		case LCPStateReqSent, LCPStateAckRcvd, LCPStateAckSent:
+		case LCPStateReqSent, LCPStateAckSent:
 			lcp.sendConfigureRequest()
+		case LCPStateAckRcvd:
+			// RFC 1661: TO+ in Ack-Rcvd is scr/Req-Sent - the peer's Ack was for the previous request
+			lcp.sendConfigureRequest()
+			lcp.setState(LCPStateReqSent)
 		}
 	} else {
 		// Timeout with restart counter expired
